@@ -300,3 +300,6 @@ Fixpoint completed_outs (os : list eout) : list (N * list N) :=
 Definition feed_all (now : N) (st : pst) (chunks : list (list N)) : list pmsg * list (option N) :=
   let rs := run_script now st (map SFeed chunks) in
   (concat (map (fun r => snd (fst r)) rs), map snd rs).
+(* no transfer of s is old enough for the housekeeping pass to act at time now *)
+Definition fresh (now : N) (s : pstate) : Prop :=
+  Forall (fun kv => (x_create (snd kv) + 60000 <? now) = false /\ (x_update (snd kv) + 5000 <? now) = false) s.
